@@ -212,15 +212,18 @@ def random_directions_within_bounds(num_pts, delta, lower, upper):
 def apply_scaling(x_raw, scaling_changes):
     if scaling_changes is None:
         return x_raw
-    shift, scale = scaling_changes
+    shift, scale = scaling_changes[:2]
     return (x_raw - shift) / scale
 
 
 def remove_scaling(x_scaled, scaling_changes):
     if scaling_changes is None:
         return x_scaled
-    shift, scale = scaling_changes
-    return shift + x_scaled * scale
+    shift, scale = scaling_changes[:2]
+    x_raw = shift + x_scaled * scale
+    if len(scaling_changes) > 2:  # upper bound in the original coordinates
+        x_raw = np.minimum(x_raw, scaling_changes[2])
+    return x_raw
 
 
 def dykstra(P,x0,max_iter=100,tol=1e-10):
